@@ -6,7 +6,7 @@ import concurrent.futures as cf
 import re
 
 from .. import core_replay, pool, tlc
-from ..checklib import Check, MachineryError
+from ..checklib import Check, MachineryError, overlap_kind
 
 INVS = {
     "C03": ["C04inert"],
@@ -47,7 +47,8 @@ def mismatch_sig(m, run):
             sig[k] = d[k]
     if m["clause"] in ("finish", "import") and isinstance(m["detail"], list):
         sig["error"] = m["detail"][0]
-        sig["overlap"] = len(m["detail"]) > 1 and "Replacement(" in str(m["detail"][1])
+        sig["overlap"] = overlap_kind(m["detail"])
+        sig["nested"] = False               # the programs of MC_Core have no nested snapshot() call
     return sig
 
 
